@@ -100,6 +100,12 @@ def run(pid, tier, replay=None):
     nested = "1" if pid == "C05" else os.environ.get("VERIF_NESTED", "1")
     if run_reg(c, exe, ["record", str(vlib.seed()), str(cnt), nested, tr], "record") is not None:
         validate(c, pid, tr, "rand")
+    if pid == "C05":
+        # (iv) built-in spellings: two expressions share an id exactly when their identity normal forms agree
+        from checks import texprcommon as T
+        cases = T.corpus(c, thorough, thorough)
+        tr2 = T.observe(c, cases, 70, 0, limit=None if thorough else 8)
+        T.validate(c, "C05", tr2)
     if pid == "C01":
         from checks import c10
         c10.legs(c, "C01", tier)        # producer 3: retain on a well-formed registry
